@@ -31,6 +31,7 @@ type hsScript struct {
 	Extras   []string `json:"extras"`
 	Stall    int      `json:"stall"`
 	Redial   bool     `json:"redial"`
+	Shared   bool     `json:"shared"` // another connection of the same client is up and its peer repeats its CEA during this dial
 }
 type cerContent struct {
 	OH      string  `json:"oh"`
@@ -51,6 +52,7 @@ type hsObs struct {
 	ClosedAtReturn bool       `json:"closed_at_return"`
 	ClosedEnd      bool       `json:"closed_end"`
 	AppDispatched  bool       `json:"app_dispatched"`
+	OtherOpen      bool       `json:"other_open"` // shared: the other connection of the client is still open at the end
 	Cer            cerContent `json:"cer"`
 }
 type hsLine struct {
@@ -142,6 +144,15 @@ func ceaFor(kind string, cer *wireMsg) []byte {
 	case "noapps":
 	case "unsupapps":
 		m.NewAVP(avp.AuthApplicationID, avp.Mbit, 0, datatype.Unsigned32(12345))
+	case "vsaunsup", "vsaok": // the only application information is a vendor-specific group, Vendor-Id first
+		app := uint32(16777999) // no dictionary defines it
+		if kind == "vsaok" {
+			app = 16777251
+		}
+		m.NewAVP(avp.VendorSpecificApplicationID, avp.Mbit, 0, &diam.GroupedAVP{AVP: []*diam.AVP{
+			diam.NewAVP(avp.VendorID, avp.Mbit, 0, datatype.Unsigned32(10415)),
+			diam.NewAVP(avp.AuthApplicationID, avp.Mbit, 0, datatype.Unsigned32(app)),
+		}})
 	default:
 		m.NewAVP(avp.AuthApplicationID, avp.Mbit, 0, datatype.Unsigned32(4))
 	}
@@ -219,13 +230,34 @@ func runHandshake(id int, sc *hsScript, configured bool) hsLine {
 		}
 		pc.Close()
 	}
+	var pcA *memnet.Conn
+	var cerA wireMsg
+	l.Obs.OtherOpen = true
+	if sc.Shared {
+		// connection A of the same client, established and kept
+		pcA = memnet.NewConn()
+		pcA.SetLocal("10.0.0.9:3868")
+		pcA.OnWrite = func(k int, b []byte) memnet.WriteOutcome {
+			if msgs, _ := splitMsgs(b); len(msgs) == 1 && msgs[0].Cmd == 257 {
+				cerA = msgs[0]
+				cea := ceaFor("ok", &msgs[0])
+				go pcA.Feed(cea)
+			}
+			return memnet.WriteOutcome{N: -1}
+		}
+		if c0, err := cli.NewConn(pcA, "10.0.0.2:3868"); err != nil || c0 == nil {
+			l.Note += " dial of the other connection failed: " + errStr(err)
+		}
+		pcA.WaitReaderBlocked(time.Second)
+		defer pcA.Close()
+	}
 	mc := memnet.NewConn()
 	lg := &evlog{}
 	logsByConn.Store(reflect.ValueOf(mc).Pointer(), lg)
 	defer logsByConn.Delete(reflect.ValueOf(mc).Pointer())
 	l.Conform = true
 	peerKind := func(kind string) string {
-		if kind == "ok" {
+		if kind == "ok" || kind == "vsaok" {
 			return "ok"
 		}
 		return "fail"
@@ -246,6 +278,12 @@ func runHandshake(id int, sc *hsScript, configured bool) hsLine {
 		c, err := cli.NewConn(mc, "10.0.0.2:3868")
 		resc <- dialRes{c, err, mc.Closed()}
 	}()
+	if sc.Shared {
+		// while this dial waits for its answer, the peer of connection A repeats its CEA on A
+		mc.WaitWrites(1, 2*time.Second)
+		pcA.Feed(ceaFor("ok", &cerA))
+		pcA.WaitReaderBlocked(time.Second)
+	}
 	// scripted peer: acts on the at-th CER
 	acted := false
 	var res dialRes
@@ -304,6 +342,9 @@ func runHandshake(id int, sc *hsScript, configured bool) hsLine {
 		l.Obs.ClosedEnd = mc.Closed()
 	} else {
 		l.Obs.ClosedEnd = mc.Closed()
+	}
+	if pcA != nil {
+		l.Obs.OtherOpen = !pcA.Closed()
 	}
 	// CER transmissions
 	msgs, _ = splitMsgs(mc.Out())
